@@ -28,3 +28,5 @@ prop("C08", [H("H08_dict", common={"param": "provs=4"}, quick={"wall": "100s", "
 
 prop("C12", [H("H12_syn", common={"param": "maxSyn=2"}, quick={"wall": "100s", "shards": 8})])
 prop("C13", [H("H13_synmerge", common={"param": "maxSyn=1,emptyTerm=1"}, quick={"wall": "100s", "shards": 8})])
+
+prop("C11", [H("H11_pool", quick={"wall": "100s", "shards": 4}), H("H11_effects", quick={"wall": "100s", "shards": 4})])
